@@ -73,6 +73,16 @@ func localNames(r *verifrt.Rand, canary string) map[string]uint64 {
 		name := pool[r.Intn(len(pool))]
 		m[name] = uint64(1 + r.Intn(1000))
 	}
+	if r.Intn(8) == 0 {
+		// values at the top of the range: a counter that saturated in the file
+		// (2^64-1), and values whose weekly sum exceeds what a report can carry
+		for name := range m {
+			m[name] = verifrt.Pick(r, []uint64{^uint64(0), 1 << 63, 1<<63 - 1, 1<<62 + 5, 1 << 62})
+			if r.Intn(3) == 0 {
+				break
+			}
+		}
+	}
 	if r.Intn(6) == 0 {
 		// names of exactly the largest length a record can hold: a stack cut
 		// off by the encoder, or a plain name
